@@ -164,7 +164,7 @@ func (c *Ctx) symScan() *symScanResult {
 	}
 	res := &symScanResult{markers: map[string]int{}}
 	c.symCache = res
-	fn := c.P.Func("internal/escape", "InternalEscapeBytes")
+	fn := c.escapeFn()
 	if fn == nil {
 		res.why = "escape.InternalEscapeBytes not found"
 		return res
